@@ -47,6 +47,7 @@ COMPOSITES = [
     ["pipeline", {}, [["detrend", {"degree": 1}]], ["naive", {"strategy": "mean", "window_length": 3}]],
     ["pipeline", {}, [["deseason", {"sp": 3, "model": "additive"}], ["detrend", {"degree": 1}]], ["naive", {"strategy": "last"}]],
     ["pipeline", {}, [["log", {}]], ["poly", {"degree": 1}]],
+    ["pipeline", {}, [], ["naive", {"strategy": "drift"}]],             # a pipeline that consists of its forecaster only
     ["stack", {"reg": "lin"}, [["naive", {"strategy": "last"}], ["poly", {"degree": 1}]]],
     ["grid", {"grid": {"strategy": ["last", "mean"]}, "cv": ["sliding", {"fh": [1], "window_length": 8, "step_length": 4}], "scoring": None}, ["naive", {}]],
     ["online", {}, [["naive", {"strategy": "last"}], ["naive", {"strategy": "mean", "window_length": 3}]]],
